@@ -548,11 +548,8 @@ class Interp:
             return out
 
         def sc(x, y):
-            if op == "/" and c != "float":
-                if y == 0:
-                    raise OutOfDomain("div-by-zero")
-                if x % y != 0:
-                    raise OutOfDomain("inexact-int-vector-division")
+            # component-wise = the scalar operation applied to every component, so integer
+            # components divide like integer scalars (truncating toward zero)
             return scalar_op(op, x, y, c)
 
         def mapv(x, y):
